@@ -10,7 +10,8 @@ extra=""; grep -q -- '-lm' "$d/demo.cpp" && extra="-lm"
 build() { g++ -std=gnu++11 -w -I include $(grep -q NDEBUG "$d/demo.cpp" && echo -DNDEBUG) "$d/demo.cpp" src/*.cpp src/*/*.cpp -lpthread -lrt -ldl $extra -o "$1" 2>"$1.log"; }
 build demo_clean || { echo "demo does not build on clean tree"; tail -5 demo_clean.log; }
 timeout 60 ./demo_clean >/dev/null 2>&1; echo "clean_demo_exit=$?"
-git apply "$d/patch.diff" || { echo "patch does not apply"; cd /; rm -rf "$w"; exit 3; }
+pf="$d/patch.diff"; [ -f "$d/patch.rebased.diff" ] && pf="$d/patch.rebased.diff"
+git apply "$pf" || { echo "patch does not apply"; cd /; rm -rf "$w"; exit 3; }
 /verif/tools/repo_tests.sh "$w" 2>&1 | grep -c '100% tests passed' | sed 's/^/suite_passes_with_patch=/'
 build demo_patched || { echo "demo does not build on patched tree"; tail -5 demo_patched.log; }
 timeout 60 ./demo_patched >/dev/null 2>&1; echo "patched_demo_exit=$?"
